@@ -317,6 +317,12 @@ def run(prog, chk):
     delimiter_agreement(prog, chk)
     r5 = chk.rule("R5-monotone-accumulators", ACC_DESC, floor=3)
     accumulator_rule(prog, r5)
+    r6 = chk.rule("R6-parser-counts-contiguous-delimiters", "the analyser offers triple quotes when the string does not contain three "
+                  "*contiguous* delimiter characters (u_strstr): the parser's closing-delimiter counter must count contiguous "
+                  "characters too - it is reset by every other character, line terminators included", primary=False, floor=1)
+    from .. import memrules
+    if memrules.run_counters(prog, r6) < 1:
+        raise Broken("no run counter found in parser.c (expected delim_count of scan_triple_delim_string)")
 
 
 def analyser_family(prog):
